@@ -13,7 +13,11 @@ package mqttproxy
 //	                 DISCONNECT packet; waits until the broker closes its side, i.e. until
 //	                 readLoop's deferred cleanup (closeAndDelSession, removeClient) is over
 //	admindel         DELETE through Broker.httpDeleteSessionHandler
-//	watch            deliver ONE queued delete event of the session store to Broker.watchDelete
+//	watch            deliver ONE queued delete event of the session store (the oldest) to Broker.watchDelete
+//	                 and wait, model-free, until the broker is done with it (watchDelete parked in its
+//	                 select again, no deleteSession goroutine left). Whether the event is the echo of a
+//	                 connection's own delDB or stems from an admin delete is NOT told to the broker (the
+//	                 store's events carry only the key); the judge tracks the origins from the actions.
 //	par [a, b]       two macro actions issued concurrently (real race)
 //
 // The moment at which the broker's read loop for an old connection notices its
@@ -522,21 +526,16 @@ func (r *c16Run) do(a c16Action) (bool, int, string) {
 		if r.st.pendingCount() == 0 {
 			return true, -1, ""
 		}
-		// Broker.watchDelete runs deleteSession in a new goroutine; its only sure
-		// trace is that the id leaves Broker.clients. When nobody is registered an
-		// already disconnected placeholder is, so that the end of deleteSession can
-		// be awaited (deleteSession only deletes such an entry: same final state).
-		r.b.Lock()
-		if _, ok := r.b.clients[c16Cid]; !ok {
-			r.b.clients[c16Cid] = &Client{broker: r.b, statusFlag: Disconnected, done: make(chan struct{}), info: ClientInfo{cid: c16Cid}}
-		}
-		r.b.Unlock()
+		// The event is handed to Broker.watchDelete through an unbuffered channel: when fire returns the
+		// broker has received it. What it does with it is up to the broker (`go b.deleteSession(id)`, or
+		// nothing when it recognises the echo of its own delDB — fixes/C16-own-delete-event.patch), so the
+		// end of the handling is awaited model-free: watchDelete is parked in its select again and no
+		// goroutine started by it (deleteSession) exists any more. The effect is read from the snapshot.
 		if !r.st.fire() {
 			return false, -1, "watch-not-received"
 		}
-		// deleteSession always ends by removing the id from Broker.clients
-		if !c16Wait(func() bool { return r.registered() == nil }) {
-			return false, -1, "watch-no-effect"
+		if !c16Wait(c16WatchIdle) {
+			return false, -1, "watch-not-settled"
 		}
 		return false, -1, ""
 	case "par":
@@ -612,6 +611,37 @@ func c16ReadLoopsParked() bool {
 		}
 		if !strings.Contains(hdr, "[IO wait") {
 			return false
+		}
+	}
+	return true
+}
+
+// c16WatchIdle reports whether a delete event handed to Broker.watchDelete has been dealt with completely:
+// every watchDelete loop is parked in its select and no goroutine that it started (deleteSession) is left,
+// running, blocked on the broker lock or not yet scheduled.
+func c16WatchIdle() bool {
+	buf := make([]byte, 1<<16)
+	for {
+		n := runtime.Stack(buf, true)
+		if n < len(buf) {
+			buf = buf[:n]
+			break
+		}
+		buf = make([]byte, 2*len(buf))
+	}
+	for _, g := range strings.Split(string(buf), "\n\n") {
+		if strings.Contains(g, "\ngithub.com/megaease/easegress/pkg/object/mqttproxy.(*Broker).deleteSession(") ||
+			strings.Contains(g, "created by github.com/megaease/easegress/pkg/object/mqttproxy.(*Broker).watchDelete") {
+			return false
+		}
+		if strings.Contains(g, "\ngithub.com/megaease/easegress/pkg/object/mqttproxy.(*Broker).watchDelete(") {
+			hdr := g
+			if i := strings.Index(g, "\n"); i >= 0 {
+				hdr = g[:i]
+			}
+			if !strings.Contains(hdr, "[select") {
+				return false
+			}
 		}
 	}
 	return true
